@@ -29,3 +29,29 @@ Theorem C06_include_must_exist :
 Proof. exact include_must_exist. Qed.
 Print Assumptions C06_include_must_exist.
 
+(* configuration objects: a refused object -- assigned by attribute, dotted path or constructor keyword (also to a sub-configuration slot), appended to / assigned into / inserted into a list of configurations -- leaves the configuration exactly as it was (covered now includes these operations: obj_op_covered) *)
+
+Theorem C06_apply_cop_err :
+  forall (F : Type) (lvalidate lto_python : F -> pyval -> res pyval) (ldefault : F -> N -> pyval) (lcallable lflag : F -> bool) (vrun : N -> list (str * pyval) -> bool) (o : cop) (w : world) (pre : str) (c : cfg) (dyn : bool) (vs : list N) (fs : list (str * node F)) (w' : world) (c' : cfg) (oc1 : oc), covered o = true -> apply_cop F lvalidate lto_python ldefault lcallable lflag vrun w pre c dyn vs fs o = (w', c', oc1) -> oc1 <> OOk -> c' = c.
+Proof. exact apply_cop_err. Qed.
+Print Assumptions C06_apply_cop_err.
+
+Theorem C06_obj_op_covered :
+  forall o : cop, is_obj_op o = true -> covered o = true.
+Proof. exact obj_op_covered. Qed.
+Print Assumptions C06_obj_op_covered.
+
+Theorem C06_reject_obj_unchanged :
+  forall (F : Type) (lvalidate lto_python : F -> pyval -> res pyval) (ldefault : F -> N -> pyval) (lcallable lflag : F -> bool) (vrun : N -> list (str * pyval) -> bool) (ps : list pstep) (o : cop) (w : world) (pre : str) (c : cfg) (dyn : bool) (vs : list N) (fs : list (str * node F)) (w' : world) (c' : cfg) (oc1 : oc), is_obj_op o = true -> at_path F lvalidate lto_python ldefault lcallable lflag vrun ps w pre c dyn vs fs o = (w', c', oc1) -> oc1 <> OOk -> c' = c.
+Proof. exact reject_obj_unchanged. Qed.
+Print Assumptions C06_reject_obj_unchanged.
+
+Theorem C06_reject_built_obj_unchanged :
+  forall (F : Type) (lvalidate lto_python : F -> pyval -> res pyval) (ldefault : F -> N -> pyval) (lcallable lflag : F -> bool) (vrun : N -> list (str * pyval) -> bool) (ps : list pstep) (r : objroute) (k : str) (sdyn : bool) (svs : list N) (sfs : list (str * node F)) (dops : list (list pstep * cop)) (w : world) (pre : str) (c : cfg) (dyn : bool) (vs : list N) (fs : list (str * node F)) (w' : world) (c' : cfg) (oc1 : oc), at_path_x F lvalidate lto_python ldefault lcallable lflag vrun ps w pre c dyn vs fs (XObj r k sdyn svs sfs dops) = (w', c', oc1) -> oc1 <> OOk -> c' = c.
+Proof. exact reject_built_obj_unchanged. Qed.
+Print Assumptions C06_reject_built_obj_unchanged.
+
+Theorem C06_reject_kept_obj_unchanged :
+  forall (F : Type) (lvalidate lto_python : F -> pyval -> res pyval) (ldefault : F -> N -> pyval) (lcallable lflag : F -> bool) (vrun : N -> list (str * pyval) -> bool) (ps : list pstep) (x : xop F) (w : world) (last : kept F) (pre : str) (c : cfg) (dyn : bool) (vs : list N) (fs : list (str * node F)) (w' : world) (last' : kept F) (c' : cfg) (oc1 : oc), match x with | XOp _ => False | _ => True end -> at_path_xs F lvalidate lto_python ldefault lcallable lflag vrun ps w last pre c dyn vs fs x = (w', last', c', oc1) -> oc1 <> OOk -> c' = c.
+Proof. exact reject_kept_obj_unchanged. Qed.
+Print Assumptions C06_reject_kept_obj_unchanged.
